@@ -1,7 +1,6 @@
 package c12
 
 import (
-	"context"
 	"fmt"
 	"sync"
 	"time"
@@ -222,8 +221,3 @@ func (s *stallTracker) waitTotal(pred func(int) bool, max time.Duration) bool {
 		}
 	}
 }
-
-// ctxDone adapts a context to the clientGone channel of stallTracker.wait.
-func ctxDone(ctx context.Context) <-chan struct{} { return ctx.Done() }
-
-func kindStr(k cache.EntryKind) string { return k.String() }
